@@ -100,7 +100,7 @@ impl Check for C02 {
         "fault_enumeration"
     }
     fn rule(&self) -> String {
-        "for each attack configuration (n in {2,3}; corrupted evaluator or garbler with <= 4 input bits; circuits whose outputs are not affine in them) every message the corrupted party sends (per recipient) x every mutation class of the catalogue (byte-level, structure-aware on the decoded tree, duplicate, replace-by-earlier, drop, swap) is injected, one per simulated run; every site runs with the scripted adversary (never aborts, so unnoticed deviations play out to the output) and the structure-aware ones also with the live adversary (real code, adaptive); plus all pairs of an input-phase bool flip with an output-phase bool flip towards one recipient, and a seeded swarm of runs with 2-4 random structure-aware edits (same message / same phase to all recipients / earlier and later message to one recipient). Oracle: each honest output party that returns Ok returns f(x_H, x') for one substitution x' common to all honest Ok results, found by exhaustive enumeration of the corrupted input; everything else must be Err. evaluations = attacked runs; distinct = (configuration, site, mutation, mode) with an effective fault".into()
+        "for each attack configuration (n in {2,3}; corrupted evaluator or garbler with <= 4 input bits; circuits whose outputs are not affine in them; plus n=3 circuits whose AND gates and two of whose outputs involve honest inputs only, so that no substitution explains a change) every message the corrupted party sends (per recipient) x every mutation class of the catalogue (byte-level, structure-aware on the decoded tree, duplicate, replace-by-earlier, drop, swap) is injected, one per simulated run; every site runs with the scripted adversary (never aborts, so unnoticed deviations play out to the output) and the structure-aware ones also with the live adversary (real code, adaptive); plus all pairs of an input-phase bool flip with an output-phase bool flip towards one recipient, the self-consistent preprocessing liars of the C04 catalogue (live cheater whose own state is adapted through a tap: other coin-toss seed, own d-value / Beaver openings, a d-value opening left out of the message and adapted locally), and a seeded swarm of runs with 2-4 random structure-aware edits (same message / same phase to all recipients / earlier and later message to one recipient). Oracle: each honest output party that returns Ok returns f(x_H, x') for one substitution x' common to all honest Ok results, found by exhaustive enumeration of the corrupted input; everything else must be Err. evaluations = attacked runs; distinct = (configuration, site, mutation, mode) with an effective fault".into()
     }
     fn assumptions(&self) -> Vec<String> {
         vec![
@@ -129,18 +129,32 @@ impl Check for C02 {
                 v.push(json!({"seed": seed, "cfg": k, "n": n, "c_is_eval": ce, "ands": 3 + k % 3, "shard": sh, "frac": frac, "swarm": if tier == Tier::Quick { 160 } else { 1600 }}));
             }
         }
+        // circuits whose AND gates and two of whose outputs involve honest inputs only (n = 3)
+        for k in 0..(if tier == Tier::Quick { 2 } else { 8 }) {
+            for sh in 0..SHARDS {
+                v.push(json!({"seed": seed, "cfg": 200 + k, "n": 3, "c_is_eval": k % 2 == 0, "ands": 4, "shard": sh, "family": "honest-and", "frac": if tier == Tier::Quick { 4 } else { 1 }, "swarm": if tier == Tier::Quick { 80 } else { 800 }}));
+            }
+        }
+        // the same family, many configurations, self-consistent preprocessing liars only
+        for k in 0..(if tier == Tier::Quick { 16 } else { 64 }) {
+            v.push(json!({"seed": seed, "cfg": 300 + k, "n": 3, "c_is_eval": k % 2 == 0, "ands": 4, "shard": 0, "family": "honest-and", "liars_only": true, "frac": 1, "swarm": 0}));
+        }
         v
     }
     fn run_case(&self, case: &Value, cx: &CaseCx) -> CaseOut {
         let mut out = CaseOut::default();
         let seed = case["seed"].as_u64().unwrap();
-        let cfg = gen_attack_cfg(
-            seed,
-            case["cfg"].as_u64().unwrap(),
-            case["n"].as_u64().unwrap() as usize,
-            case["c_is_eval"].as_bool().unwrap(),
-            case["ands"].as_u64().unwrap() as usize,
-        );
+        let cfg = if case["family"] == "honest-and" {
+            honest_and_cfg(seed, case["cfg"].as_u64().unwrap(), case["c_is_eval"].as_bool().unwrap())
+        } else {
+            gen_attack_cfg(
+                seed,
+                case["cfg"].as_u64().unwrap(),
+                case["n"].as_u64().unwrap() as usize,
+                case["c_is_eval"].as_bool().unwrap(),
+                case["ands"].as_u64().unwrap() as usize,
+            )
+        };
         let shard = case["shard"].as_u64().unwrap();
         let frac = case["frac"].as_u64().unwrap();
         let r = reference(&cfg);
@@ -204,7 +218,7 @@ impl Check for C02 {
             }
         }
         for (i, faults) in pairs.iter().enumerate() {
-            if i as u64 % SHARDS != shard {
+            if i as u64 % SHARDS != shard || case["liars_only"] == true {
                 continue;
             }
             let spec = attacked_spec(&cfg, AdvMode::Scripted, faults.clone(), vec![], None, &r.decisions);
@@ -216,6 +230,37 @@ impl Check for C02 {
             out.count("two_fault_combinations", 1);
             out.distinct.push(entropy::fnv(0, serde_json::to_string(&(&spec.faults, cfg.base.seed)).unwrap().as_bytes()));
             out.violations.extend(c02_oracle(&spec, &run));
+        }
+        // self-consistent liars in the preprocessing (the live cheater adapts its own state through a
+        // tap, alone or together with an edit of what it sends): same oracle - correct or Err
+        let all_js: Vec<usize> = (0..cfg.base.circ.and_ops).collect();
+        let liars: Vec<crate::checks::c04::Dev> = crate::checks::c04::deviations(&cfg, &r, seed)
+            .into_iter()
+            .filter(|d| !d.spec.taps.is_empty() && !d.kind.starts_with("dvalue#0:last-opening-left-out"))
+            .chain(crate::checks::c04::dvalue_omission_devs(&cfg, &r, &all_js).into_iter().filter(|d| !d.spec.taps.is_empty()))
+            .collect();
+        for (i, d) in liars.into_iter().enumerate() {
+            if i as u64 % SHARDS != shard && case["liars_only"] != true {
+                continue;
+            }
+            cx.begin(&serde_json::to_value(&d.spec).unwrap());
+            let run = run_attack(&d.spec, Some(r.run.clone()));
+            out.evals += 1;
+            out.sim_steps += run.res.steps;
+            out.merge_fired(&run.res.fired);
+            if run.res.tap_fired == 0 {
+                continue;
+            }
+            out.count("self_consistent_preprocessing_lies", 1);
+            if honest_parties(&d.spec).iter().any(|h| matches!(run.res.ends[*h], End::Ok(_))) {
+                out.count("self_consistent_preprocessing_lies:some_honest_party_ok", 1);
+            }
+            count_honest_errs(&mut out, &d.spec, &run);
+            out.distinct.push(entropy::fnv(0, serde_json::to_string(&(&d.spec.faults, &d.spec.taps, cfg.base.seed)).unwrap().as_bytes()));
+            out.violations.extend(c02_oracle(&d.spec, &run));
+        }
+        if case["liars_only"] == true {
+            return out;
         }
         // swarm: random combinations of 2..4 structure-aware edits
         let swarm = random_multi_faults(&cfg, &r, seed, case["swarm"].as_u64().unwrap_or(160) as usize);
